@@ -74,6 +74,19 @@ add('C17', 'model_checking', 'exhaustive decision table with scripted draws + ex
     'cassettes in one process.',
     'kept iff draw <= rate as the recorder logs; PRNG uniformity trusted; scripted draws injected through the private Random instance.')
 
+add('C06', 'exploration', 'exhaustive enumeration of a closed argument universe recorded in one operation and replayed in-process (reordered) and in child processes with other hash seeds',
+    'Every tree-shaped value of the universe (10 atoms; list / tuple / set / dict / object constructors, <=2 children, depth 1 quick / 2 thorough) is a '
+    'call of one operation with a unique result, for 10 call configurations; on replay each call must receive exactly the value recorded for the call '
+    'with the same reference identity (resolved alias + captured argument values, type-aware, unordered sets/dicts) - in the original and reversed '
+    'insertion order, on another instance, with other excluded arguments, and in three child processes with PYTHONHASHSEED 1,2,3. All pairs of the '
+    'universe are thereby checked for key collisions and every value for key stability. One known finding (sets with >=2 elements, F8).',
+    'Keys are judged by replay behaviour, never by text; positional-vs-keyword equivalence is not demanded.')
+add('C11', 'exploration', 'exhaustive product of mutable value shapes x read paths x second observations x cassettes on the real recordings/cassettes/recorder',
+    'Every mutable shape (incl. tuples holding mutables, shared sub-lists, exceptions with mutable attributes) is stored and read back through every '
+    'read path; every mutable node reached is mutated in place; the second observation (same object, refetch from the same cassette object, fresh '
+    'cassette object, second replay) must equal the pristine value and share no object with the first; copy-on-interception with post-capture mutation.',
+    'get_metadata() of one recording object and get_data_direct are not required to copy; independence is demanded between fetches.')
+
 NOT_YET = {}
 
 
